@@ -4,6 +4,8 @@ import DendroModel.Theory.C08Prune
 import DendroModel.Theory.C08Extract
 import DendroModel.Theory.C08Spec
 import DendroModel.Theory.C08Len
+import DendroModel.Theory.C08Cut
+import DendroModel.Theory.C08Gen
 /-! C08 — property theorems.  Every `theorem` directly in `namespace DendroModel.C08` of this file is an obligation.
 They are statements about the definitions `drv_c08` executes (`Model/C08.lean`): the mechanisms as the code runs them
 (`pruneTaxa` = strike pass + leaf-removal loop + `T.sup`; `filterLeaves`; `retainTaxa`; `extractTree` = memo-driven fold over
@@ -33,19 +35,68 @@ theorem filter_eq_restrict (acc : Acc) (hN : NoneRej acc) (sup : Bool) (t : T) (
     (filterLeaves acc true sup t).map (·.1) = restrict acc sup t :=
   filter_fst acc hN sup t h
 
-/-- the fuel `t.size` handed to the `while True` loop is never exhausted: the loop ends because a pass finds nothing to remove
-    (the result is a fixpoint of the pass) or because the seed would go -/
-theorem dropLoop_fuel (acc : Acc) (hN : NoneRej acc) (t : T) (h : InnerNoTaxon t) (r : T) (rem : List Nat)
-    (hr : dropLoop acc true t.size t [] = some (r, rem)) : rejLeaves acc r = [] := by
-  have spec := dropLoop_spec acc hN t.size t [] h (Nat.le_refl _)
-  cases hres : restrict acc false t with
+/-- the fuel `t.size` handed to the `while True` loop is never what stops it, for ANY filter and ANY tree: whatever the loop
+    returns has no rejected leaf left (it stopped because a pass found nothing to remove) -/
+theorem dropLoop_fuel (acc : Acc) (t r : T) (rem : List Nat)
+    (hr : dropLoop acc true t.size t [] = some (r, rem)) : rejLeaves acc r = [] :=
+  dropLoop_fix_any acc t.size t [] r rem (Nat.le_refl _) hr
+
+/-- `filter_leaf_nodes(recursive=True)` with an ARBITRARY filter on ANY tree (internal taxa, filters that accept a node
+    that became a leaf): the loop computes `restrictA` (a childless former internal node is asked too), then suppresses -/
+theorem filter_eq_restrictA (acc : Acc) (sup : Bool) (t : T) :
+    (filterLeaves acc true sup t).map (·.1) = (restrictA acc t).map (supIf sup) := by
+  have spec := dropLoopA_spec acc t.size t [] (Nat.le_refl _)
+  unfold filterLeaves
+  cases hres : restrictA acc t with
+  | none => simp [spec.2 hres]
+  | some r => obtain ⟨rm, e, _⟩ := spec.1 r hres; simp [e]
+
+/-- (e) for an arbitrary filter: reported removed nodes ++ nodes of the unsuppressed result is a permutation of the input's nodes -/
+theorem removed_spec_any (acc : Acc) (sup : Bool) (t r : T) (rem : List Nat)
+    (hr : filterLeaves acc true sup t = some (r, rem)) :
+    ∃ r0, restrictA acc t = some r0 ∧ r = supIf sup r0 ∧ (rem ++ ids r0).Perm (ids t) := by
+  have spec := dropLoopA_spec acc t.size t [] (Nat.le_refl _)
+  unfold filterLeaves at hr
+  cases hres : restrictA acc t with
   | none => rw [spec.2 hres] at hr; cases hr
   | some r0 =>
-    obtain ⟨rm, e, _⟩ := spec.1 r0 hres
+    obtain ⟨rm, e, p⟩ := spec.1 r0 hres
     rw [e] at hr
-    simp only [Option.some.injEq, Prod.mk.injEq] at hr
-    rw [← hr.1]
-    exact restrict_fix acc t r0 hres
+    simp only [Option.map_some, Option.some.injEq, Prod.mk.injEq, List.nil_append] at hr
+    exact ⟨r0, rfl, hr.1.symm, hr.2 ▸ p⟩
+
+/-- the generalised specification is the induced subtree whenever the filter is taxon-driven and taxa sit on leaves -/
+theorem restrictA_eq_restrict (acc : Acc) (hN : NoneRej acc) (t : T) (h : InnerNoTaxon t) :
+    restrictA acc t = restrict acc false t := restrictA_eq acc hN t h
+
+/-- `filter_leaf_nodes(recursive=False)`: exactly one pass (the fuel is not touched), and (e) for that pass:
+    the rejected current leaves ++ the nodes that stay is a permutation of the input's nodes -/
+theorem filter_once_spec (acc : Acc) (sup : Bool) (t : T) :
+    filterLeaves acc false sup t =
+      (if rejLeaves acc t = [] then some (supIf sup t, [])
+       else if t.isLeaf then none else some (supIf sup (dropPass acc t), rejLeaves acc t)) ∧
+    (¬ rejected acc t = true → (rejLeaves acc t ++ ids (dropPass acc t)).Perm (ids t)) := by
+  refine ⟨?_, dropPass_perm acc t⟩
+  unfold filterLeaves
+  obtain ⟨n, hn⟩ : ∃ n, t.size = n + 1 := ⟨t.size - 1, by have := size_pos t; omega⟩
+  rw [hn]
+  simp only [dropLoop]
+  by_cases hb : rejLeaves acc t = []
+  · simp [hb]
+  · have hbe : (rejLeaves acc t).isEmpty = false := by
+      cases hh : rejLeaves acc t with
+      | nil => exact absurd hh hb
+      | cons a b => rfl
+    by_cases hl : t.isLeaf = true <;> simp [hb, hbe, hl]
+
+/-- "by subtree": `prune_subtree(node i)` (detach the subtree, detach ancestors left childless, suppress if asked) yields
+    the subtree induced by the leaves outside the pruned subtree `sub`; nothing but the bare seed is left exactly when the
+    induced subtree is empty -/
+theorem prune_subtree_eq_restrict (i : Nat) (sup : Bool) (t sub : T) (hnd : (ids t).Nodup) (hne : t.id ≠ i)
+    (hf : t.find? i = some sub) :
+    restrict (outside (ids sub)) sup t = if (cut i t).cs.isEmpty then none else some (pruneSubtree i sup t) := by
+  rw [← restrict_supIf, cut_restrict i t sub hnd hne hf]
+  by_cases h : (cut i t).cs.isEmpty = true <;> simp [h, pruneSubtree]
 
 /-- (e) the nodes reported as removed are exactly the removed ones: together with the nodes of the unsuppressed induced
     subtree they are a rearrangement of the nodes of the input (no node twice, none missing, none reported that stayed) -/
@@ -109,22 +160,41 @@ theorem taxonFilter_restrict (K : Nat → Bool) (sup : Bool) (t : T) (hl : ∀ l
   | none => exact absurd hx (hl lf h)
   | some k => simp [taxonFilter, keepTaxa]
 
-/-- (d) in-place pruning of `P`, in-place retaining of the complement, recursive leaf filtering, extraction with the kept
-    taxa and extraction without the pruned taxa all produce the same tree (or all fail) -/
-theorem variants_agree (ns : List Nat) (K : Nat → Bool) (sup : Bool) (t : T) (h : InnerNoTaxon t) (hnd : (ids t).Nodup)
-    (hl : ∀ lf ∈ t.leaves, lf.taxon ≠ none) (hns : ∀ lf ∈ t.leaves, ∀ k, lf.taxon = some k → k ∈ ns) :
+/-- (d) the API variants as their callers drive them: in-place pruning of the finite list `P`, in-place retaining of `K`
+    (which prunes the members of the namespace list `ns` outside `K`), recursive leaf filtering, extraction with the kept taxa
+    and extraction WITHOUT the list `P` all produce the same tree (or all fail), whenever `P` lists exactly the leaf taxa
+    outside `K` (it may list anything else that is not on the tree) -/
+theorem variants_agree (ns P : List Nat) (K : Nat → Bool) (sup : Bool) (t : T) (h : InnerNoTaxon t) (hnd : (ids t).Nodup)
+    (hl : ∀ lf ∈ t.leaves, lf.taxon ≠ none) (hns : ∀ lf ∈ t.leaves, ∀ k, lf.taxon = some k → k ∈ ns)
+    (hP : ∀ lf ∈ t.leaves, ∀ k, lf.taxon = some k → P.contains k = !K k) :
     let want := restrict (keepTaxa K) sup t
-    pruneTaxa (fun k => !K k) true false sup t = want ∧
+    pruneTaxa (fun k => P.contains k) true false sup t = want ∧
     retainTaxa ns K sup t = want ∧
     (filterLeaves (keepTaxa K) true sup t).map (·.1) = want ∧
     (extractTree (taxonFilter K) true false sup t).toOption = want ∧
-    (extractTree (taxonFilter (fun k => !(!K k))) true false sup t).toOption = want := by
+    (extractTree (taxonFilter (fun k => !P.contains k)) true false sup t).toOption = want := by
   have r := retain_eq_prune_compl ns K sup t h hns
-  refine ⟨r.1 ▸ r.2, r.2, ?_, ?_, ?_⟩
+  refine ⟨?_, r.2, ?_, ?_, ?_⟩
+  · rw [prune_eq_restrict _ sup t h]
+    apply restrict_congr
+    intro lf hlf
+    cases hx : lf.taxon with
+    | none => simp [keepTaxa]
+    | some k =>
+      have := hP lf hlf k hx
+      show (!P.contains k) = K k
+      rw [this]; simp
   · exact filter_eq_restrict (keepTaxa K) (fun _ => rfl) sup t h
   · rw [extract_eq_restrict _ sup t hnd, taxonFilter_restrict K sup t hl]
-  · have e : (fun k => !(!K k)) = K := by funext k; simp
-    rw [e, extract_eq_restrict _ sup t hnd, taxonFilter_restrict K sup t hl]
+  · rw [extract_eq_restrict _ sup t hnd]
+    apply restrict_congr
+    intro lf hlf
+    cases hx : lf.taxon with
+    | none => exact absurd hx (hl lf hlf)
+    | some k =>
+      have := hP lf hlf k hx
+      show (!P.contains k) = K k
+      rw [this]; simp
 
 /-- (a) the clades (leafset masks of all nodes) of the induced subtree are exactly the non-empty restrictions `C ∩ K`
     of the clades of the original tree; `K` given as a bit mask.  Holds with and without suppression. -/
@@ -138,11 +208,29 @@ theorem restrict_none_clades (Km : Nat) (sup : Bool) (t : T)
     (hr : restrict (keepTaxa (fun k => Km.testBit k)) sup t = none) : ∀ c ∈ t.masksPost, c &&& Km = 0 :=
   (restrict_clades_aux Km sup t).2 hr
 
-/-- (b) with suppression declined no length moves and no node disappears except those without a surviving leaf:
-    the node records (id, taxon, length, label) of the result are a sublist of those of the input, in order -/
+/-- (b) with suppression declined, weak form: the node records (id, taxon, length, label) of the result are a sublist of
+    those of the input, in order (no length moves, nothing new appears) -/
 theorem nosuppress_spec (keep : Acc) (t r : T) (hr : restrict keep false t = some r) :
     (heads r).Sublist (heads t) ∧ r.id = t.id ∧ r.len = t.len :=
   nosup_aux keep t r hr
+
+/-- `alive` (used below) is "some kept leaf sits at or below the node", and that is exactly when the restriction is non-empty -/
+theorem alive_spec (keep : Acc) (sup : Bool) (t : T) :
+    alive keep t = t.leaves.any (fun lf => keep lf.id lf.taxon) ∧ (restrict keep sup t).isSome = alive keep t := by
+  refine ⟨alive_any keep t, ?_⟩
+  rw [← restrict_supIf, Option.isSome_map, (nodes_restrict keep t).1]
+
+/-- (b) with suppression declined, which nodes stay: the result's nodes (pre-order, with unchanged id, taxon, length, label)
+    are exactly the input's nodes that have a kept leaf at or below them -/
+theorem nosuppress_nodes (keep : Acc) (t r : T) (hr : restrict keep false t = some r) :
+    r.nodes.map head = (t.nodes.filter (alive keep)).map head :=
+  (nodes_restrict keep t).2.1 r hr
+
+/-- (b) with suppression declined, the parent/child structure: the result's (parent id, child record) pairs are exactly the
+    input's pairs whose child has a kept leaf at or below it, in order: nothing is re-parented -/
+theorem nosuppress_edges (keep : Acc) (t r : T) (hr : restrict keep false t = some r) :
+    (pedges r).map eview = ((pedges t).filter (fun e => alive keep e.2)).map eview :=
+  edges_restrict keep t r hr
 
 /-- (b) with suppression every node of the result has either no or at least two children -/
 theorem suppress_no_unary (keep : Acc) (t r : T) (hr : restrict keep true t = some r) : NoUnary r :=
@@ -168,6 +256,33 @@ theorem restrict_rootlen (keep p : Acc) (hp : ∀ i x, p i x = true → keep i x
     (hr : restrict keep sup t = some r) : (reach p r).map (· + oval r.len) = (reach p t).map (· + oval t.len) :=
   ((reach_restrict keep p hp sup t hw).1 r hr).1
 
+/-- `Node.extract_subtree` called on ANY node `i` of the tree (not only the seed): the clone is the subtree induced below
+    that node (`none` ⇔ the call raises) -/
+theorem extract_node_eq_restrict (acc : Acc) (fl sup : Bool) (t sub : T) (i : Nat) (hnd : (ids t).Nodup) (hne : i ≠ t.id)
+    (hf : t.find? i = some sub) :
+    (extractNode acc fl false sup t i).toOption = restrict (leafKeep fl acc) sup sub :=
+  extractNode_eq acc fl sup t sub i hnd hne hf
+
+/-- extraction, including WHICH exception: `ValueError` iff the seed is a leaf the filter rejects, `SeedNodeDeletionException`
+    iff the seed has children and no leaf survives -/
+theorem extract_error_kind (acc : Acc) (fl sup : Bool) (t : T) (hnd : (ids t).Nodup) :
+    extractTree acc fl false sup t =
+      match restrict (leafKeep fl acc) sup t with
+      | some r => .ok r
+      | none => if t.cs.isEmpty then .valueError else .seedDeletion :=
+  extract_full acc fl sup t hnd
+
+/-- the executable exact-fraction path length the driver prints (`measure`) denotes the rational path length of the theorems -/
+theorem distF_denotes (p q : Acc) (t : T) (hw : LensWF t) : (distF p q t).map oval = dist p q t :=
+  distF_val p q t hw
+
+/-- (c) stated on the executable measurement: the driver-computed path lengths of the induced subtree and of the input agree -/
+theorem restrict_pathlen_exec (keep p q : Acc) (hp : ∀ i x, p i x = true → keep i x = true)
+    (hq : ∀ i x, q i x = true → keep i x = true) (sup : Bool) (t r : T) (hw : LensWF t) (hwr : LensWF r)
+    (hr : restrict keep sup t = some r) : (distF p q r).map oval = (distF p q t).map oval := by
+  rw [distF_val p q r hwr, distF_val p q t hw]
+  exact dist_restrict keep p q hp hq sup t hw r hr
+
 /-! ### the hypotheses are satisfiable, the statements are not vacuous -/
 def demo : T :=
   .node 0 none (some ⟨9, 1⟩) none
@@ -189,5 +304,12 @@ example : ((extractTree (taxonFilter (fun k => k == 1 || k == 2)) true false tru
     = some "(0 - 9 (3 1 5) (5 2 12))" := by decide
 example : (restrict (keepTaxa (fun k => k == 3)) true demo).map T.render = some "(7 3 29)" := by decide
 example : (filterLeaves (keepTaxa (fun k => k == 3)) true false demo).map (·.2) = some [2, 3, 5, 8, 1] := by decide
+example : (demo.find? 4).map T.id = some 4 ∧ demo.id ≠ 4 ∧ (ids demo).Nodup := by decide
+example : (pruneSubtree 4 true demo).render = "(1 - 12 (2 0 1) (3 1 2))" := by decide
+example : (restrictA (fun i _ => i == 4 || i == 2) demo).map T.render = some "(0 - 9 (1 - 3 (2 0 1)) (4 - 8))" := by decide
+example : (filterLeaves (fun i _ => i == 4 || i == 2) false false demo).map (·.2) = some [3, 5, 7, 8] := by decide
+example : (match extractTree (fun _ _ => false) true false true demo with | .seedDeletion => true | _ => false) = true := by decide
+example : (allDists demo).length = 10 := by decide
+example : ((extractNode (fun i _ => i != 3) true false true demo 1).toOption).map T.render = some "(2 0 4)" := by decide
 
 end DendroModel.C08
